@@ -156,7 +156,27 @@ func run(x *h.Ctx, c Case) string {
 	for vi, v := range c.Variants {
 		n := &awkgen.Naming{Func: v.Func, Param: v.Param, Global: v.Global, Order: v.Order}
 		src := n.Render(c.Prog)
-		prog, err := parser.ParseProgram([]byte(src), nil)
+		// every second spelling is parsed and run with Go functions registered under the names of the program's own
+		// functions (and of two names it does not use), with other arities: functions defined in AWK take
+		// precedence over Funcs entries of the same name, so neither the verdict nor the behaviour may change
+		var pcfg *parser.ParserConfig
+		var shadow map[string]any
+		if vi%2 == 1 {
+			shadow = map[string]any{"unused_native_": func(a, b float64) float64 { return a + b }, "zz_unused_native_": func(s ...string) int { return len(s) }}
+			for fi, name := range v.Func {
+				switch fi % 3 {
+				case 0:
+					shadow[name] = func() {}
+				case 1:
+					shadow[name] = func(a, b, c, d, e, f, g, h float64) float64 { return a }
+				default:
+					shadow[name] = func(s string, rest ...float64) string { return s }
+				}
+			}
+			pcfg = &parser.ParserConfig{Funcs: shadow}
+			x.Class("go-functions-under-the-same-names")
+		}
+		prog, err := parser.ParseProgram([]byte(src), pcfg)
 		if err != nil {
 			pe, isPE := err.(*parser.ParseError)
 			if !isPE {
@@ -176,7 +196,7 @@ func run(x *h.Ctx, c Case) string {
 		var out bytes.Buffer
 		status, err := interp.ExecProgram(prog, &interp.Config{
 			Stdin: strings.NewReader(""), Output: &out, Error: &out, Argv0: "goawk",
-			Environ: []string{"A", "1"}, NoExec: true, NoFileWrites: true, NoFileReads: true,
+			Environ: []string{"A", "1"}, NoExec: true, NoFileWrites: true, NoFileReads: true, Funcs: shadow,
 		})
 		if err != nil {
 			return fmt.Sprintf("variant %d: accepted program fails at run time: %v\n%s\noutput so far:\n%s", vi, err, src, out.String())
